@@ -110,6 +110,7 @@ static bool sig_close(const std::string& a, const std::string& b)
   return true;
 }
 
+static int g_body_threads = 1; // team size of the execution in progress (1 for the single-thread reference)
 struct Body
 {
   std::string name;              // e.g. "L:cyl:ops=0,1"
@@ -320,6 +321,107 @@ static Body make_D(const std::string& what, int threads, bool cache, int setup_t
   return b;
 }
 
+// ------------------------------------------------------------------------------------------------ body X (single-scatter simulation)
+// The parallel loop over the bins of the FIRST viewgram of process_data() runs with a team (the other viewgrams single-threaded), on a
+// fresh simulation object, so that the first-use races of the (scatter point, detector) line-integral caches are re-armed in every schedule.
+#include "stir/scatter/SingleScatterSimulation.h"
+static Body make_X(int threads, bool cache)
+{
+  Body b;
+  b.name = "X:t=" + std::to_string(threads) + ":cache=" + std::to_string(cache);
+  b.threads = threads;
+  b.exact = false;
+  b.run = [cache]() {
+    typedef VoxelsOnCartesianGrid<float> Vox;
+    auto grid = [](int nz, int half, float vz, float vxy) {
+      shared_ptr<Vox> im(new Vox(IndexRange3D(0, nz - 1, -half, half, -half, half), CartesianCoordinate3D<float>(0.F, 0.F, 0.F), CartesianCoordinate3D<float>(vz, vxy, vxy)));
+      im->fill(0.F);
+      return im;
+    };
+    auto disk = [](Vox& im, float r, float val, float rim) {
+      for (int z = im.get_min_z(); z <= im.get_max_z(); ++z)
+        for (int y = im.get_min_y(); y <= im.get_max_y(); ++y)
+          for (int x = im.get_min_x(); x <= im.get_max_x(); ++x)
+            { const float d = std::sqrt(float(y * y + x * x)); if (d <= r) im[z][y][x] = val; else if (d <= r + 1) im[z][y][x] = rim; }
+    };
+    auto sc = small::cyl_scanner(8, 2, 0, 0.F, 100.F, 16.F);
+    auto tmpl = small::make_pdi(sc, 1, 1);
+    shared_ptr<ExamInfo> ex(new ExamInfo);
+    ex->imaging_modality = ImagingModality::PT; ex->set_low_energy_thres(350.F); ex->set_high_energy_thres(650.F);
+    auto act = grid(5, 3, 8.F, 14.F); disk(*act, 2.5F, 1.F, 0.F);
+    { int k = 0; for (auto it = act->begin_all(); it != act->end_all(); ++it, ++k) if (*it > 0) *it = float(1 + k % 5); }
+    auto att = grid(5, 3, 8.F, 14.F); disk(*att, 2.2F, 0.096F, 0.03F);
+    auto sp = grid(3, 2, 16.F, 21.F); disk(*sp, 1.2F, 0.096F, 0.03F);
+    SingleScatterSimulation s;
+    s.set_randomly_place_scatter_points(false);
+    s.set_attenuation_threshold(0.01F);
+    s.set_use_cache(cache);
+    s.set_template_proj_data_info(*tmpl);
+    s.set_exam_info(*ex);
+    s.set_activity_image_sptr(act);
+    s.set_density_image_sptr(att);
+    s.set_density_image_for_scatter_points_sptr(sp);
+    shared_ptr<ProjDataInMemory> out(new ProjDataInMemory(ex, s.get_template_proj_data_info_sptr()));
+    s.set_output_proj_data_sptr(out);
+    vompx::suspend(true);
+    const bool ok = s.set_up() == Succeeded::yes;
+    vompx::suspend(false);
+    if (!ok) return std::string("set_up failed");
+    if (omp_get_max_threads() > 1) vomp_region_of_interest(); // the first top-level parallel region (first viewgram) gets the team
+    if (s.process_data() != Succeeded::yes) return std::string("process_data failed");
+    return pd_sig(*out);
+  };
+  return b;
+}
+
+// ------------------------------------------------------------------------------------------------ body LM (list-mode gradient)
+// PoissonLogLikelihoodWithLinearModelForMeanAndListModeDataWithProjMatrixByBin on an in-memory list-mode stream of 6 prompts (two of
+// them in the same bin): the sub-gradient through LM_distributable_computation with a team, compared with the single-thread result
+#include "ref_listmode.h"
+#include "stir/recon_buildblock/PoissonLogLikelihoodWithLinearModelForMeanAndListModeDataWithProjMatrixByBin.h"
+static Body make_LM(int threads, int cache_size)
+{
+  Body b;
+  b.name = "LM:t=" + std::to_string(threads) + ":cache=" + std::to_string(cache_size);
+  b.threads = threads;
+  b.exact = false;
+  b.run = [cache_size]() {
+    typedef PoissonLogLikelihoodWithLinearModelForMeanAndListModeDataWithProjMatrixByBin<DiscretisedDensity<3, float>> LMObj;
+    auto sc = small::cyl_scanner(8, 2);
+    auto pdi = small::make_pdi(sc, 1, 1);
+    auto im = small::make_image(*pdi);
+    shared_ptr<ExamInfo> ex(new ExamInfo); ex->imaging_modality = ImagingModality::PT; im->set_exam_info(*ex);
+    { int k = 0; for (auto it = im->begin_all(); it != im->end_all(); ++it, ++k) *it = 1.F + float(k % 4); }
+    const lmref::Stream st = lmref::parse_stream("p0.0.0.4.0,p0.1.1.5.0,p1.0.0.4.0,p0.0.0.4.0,t1,p1.2.1.6.0,p0.3.0.7.0");
+    shared_ptr<lmref::MemListMode> lm(new lmref::MemListMode(pdi, st));
+    shared_ptr<LMObj> obj(new LMObj);
+    shared_ptr<ProjMatrixByBinUsingRayTracing> m(new ProjMatrixByBinUsingRayTracing());
+    m->set_num_tangential_LORs(1);
+    vompx::suspend(true);
+    vomp_set_team_size(1);
+    obj->set_input_data(shared_ptr<ExamData>(lm));
+    obj->set_proj_matrix(m);
+    obj->set_num_subsets(1);
+    obj->set_use_subset_sensitivities(true);
+    obj->set_recompute_sensitivity(true);
+    obj->set_cache_path(".");
+    obj->set_cache_max_size((unsigned long)cache_size);
+    obj->set_recompute_cache(true);
+    shared_ptr<DiscretisedDensity<3, float>> est(im->clone());
+    const bool ok = obj->set_up(est) == Succeeded::yes;
+    vompx::suspend(false);
+    if (!ok) return std::string("set_up failed");
+    shared_ptr<DiscretisedDensity<3, float>> g(im->get_empty_copy());
+    vomp_set_all_regions(1); // LM_distributable_computation has no region marker: every top-level region gets the team here
+    const int use_threads = g_body_threads;
+    vomp_set_team_size(use_threads);
+    obj->compute_sub_gradient_without_penalty_plus_sensitivity(*g, *est, 0);
+    vomp_set_all_regions(0);
+    return img_sig(*g);
+  };
+  return b;
+}
+
 // ------------------------------------------------------------------------------------------------ body P
 static Body make_P(int store, int threads)
 {
@@ -389,6 +491,12 @@ static std::vector<Body> bodies(bool thorough, bool tsan)
       v.push_back(make_D("bck", 2, false, 3));
       v.push_back(make_D("gradient", 4, false, 4));
     }
+  // LM
+  v.push_back(make_LM(2, 0));
+  if (thorough) { v.push_back(make_LM(2, 3)); v.push_back(make_LM(3, 0)); }
+  // X
+  v.push_back(make_X(2, true));
+  if (thorough) { v.push_back(make_X(2, false)); v.push_back(make_X(3, true)); }
   // P
   for (int st = 0; st < 2; ++st) v.push_back(make_P(st, 2));
   if (thorough) for (int st = 0; st < 2; ++st) v.push_back(make_P(st, 3));
@@ -486,14 +594,14 @@ int main(int argc, char** argv)
     {
       if (!only_body.empty() && body.name.compare(0, only_body.size(), only_body) != 0) continue;
       if (ctx.replaying() && rk["body"] != body.name) continue;
-      const std::string kind = body.name.substr(0, 1);
+      const std::string kind = body.name.substr(0, body.name.find(':'));
       // reference: one thread
-      vomp_set_team_size(1);
+      vomp_set_team_size(1); g_body_threads = 1;
       std::string ref;
       std::string what;
       ctx.current("body=" + body.name, "body=" + body.name + ";bound=0;sched=");
       if (small::throws([&] { ref = body.run(); }, &what)) { ctx.violation("clause=single_thread_reference_failed;body=" + kind, "body=" + body.name + ";bound=0;sched=", what); continue; }
-      vomp_set_team_size(body.threads);
+      vomp_set_team_size(body.threads); g_body_threads = body.threads;
 
       vompx::Explorer ex;
       ex.body = [&](vompx::Execution& x) {
@@ -529,7 +637,7 @@ int main(int argc, char** argv)
         {
           vompx::Result r;
           ctx.current("body=" + body.name, "body=" + body.name + ";bound=" + std::to_string(bound) + ";sched=");
-          if (bound > 0 && bound > (kind == "L" ? (ctx.thorough() ? 99 : 3) : kind == "D" ? max_bound : max_bound + 1)) break;
+          if (bound > 0 && bound > (kind == "L" ? (ctx.thorough() ? 99 : 3) : (kind == "D" || kind == "X" || kind == "LM") ? max_bound : max_bound + 1)) break;
           ex.explore(bound, r);
           last = r;
           if (!r.complete) { ctx.exhaustive = false; break; }
@@ -544,7 +652,7 @@ int main(int argc, char** argv)
       ctx.count("distinct_outcomes_" + kind, (long long)last.outcomes.size());
       ctx.maxi("max_choice_points_per_execution_" + kind, last.max_points);
       for (auto& s : last.sites) ctx.count(std::string("hook_choice_points:") + s.first, s.second);
-      ctx.sample(body.name + ": " + std::to_string(last.schedules) + " schedules, <= " + std::to_string(last.max_points) + " choice points each, " + std::to_string(last.outcomes.size()) + " distinct outcomes", 8);
+      ctx.sample(body.name + ": " + std::to_string(last.schedules) + " schedules, <= " + std::to_string(last.max_points) + " choice points each, " + std::to_string(last.outcomes.size()) + " distinct outcomes; single-thread outcome " + ref.substr(0, 70), 12);
       ctx.digest(body.name + ref);
     }
   vomp_stats_t* st = vomp_stats();
